@@ -33,7 +33,7 @@ ORanges == {<<>>, <<<<5>>>>, <<<<5>>, <<7>>>>, <<Zero>>, <<Zero, Zero>>, <<Big40
 Classes == {B("p.Q"), B("a"), B("p.q.R$S"), E \o B(".b")}
 HKeys   == {B("compiler"), B("min_api"), B("pg map"), E}
 HVals   == {<<>>, <<B("R8")>>, <<B("1.2.3")>>, <<B("a: b")>>, <<B("x y") \o E>>}
-Files   == {B("Foo.kt"), E \o B(".java"), B("R8$$SyntheticClass"), B("a b")}
+Files   == {B("Foo.kt"), E \o B(".java"), B("R8$$SyntheticClass"), B("a b"), B("C:") \o <<92>> \o B("src") \o <<92>>}   \* (the last ends in a backslash)
 
 \* ASTs are produced in two levels so that the second level fans out over workers
 Pads == {<<32, 32>>, <<9>>, <<194, 160>>, <<227, 128, 128>>, <<32, 194, 133>>, <<11>>}
